@@ -425,7 +425,7 @@ pub fn def() -> PropDef {
         abort_possible: false,
         parts: |tier| {
             vec![
-                part("pairs_x_values", tier.pick(120_000, 4_000_000), case_strategy(all_pairs()), check),
+                part("pairs_x_values", tier.pick(120_000, 24_000_000), case_strategy(all_pairs()), check),
                 part_enum("small_sources_exhaustive", small_exhaustive, check),
             ]
         },
